@@ -5,7 +5,7 @@ From Coq Require Import Ring.
 From CC Require Import Base.Prelude Base.Scalar Base.Ty Base.Shape Graph.Value Graph.IR Graph.Eval Graph.Typing
   Model.RingEval Model.MpcCompile Model.MpcCompilePlan Model.MpcCompileSem Model.MpcCompileCtx Model.MpcCompileCtxSem
   Proofs.MpcCompileBase Proofs.MpcCompileStatic Proofs.MpcCompileTyping Proofs.MpcCompileReshare Proofs.MpcCompileProofs
-  Proofs.MpcCompileCtxBase.
+  Proofs.MpcCompileCtxBase Proofs.MpcCompileCtxStatic.
 
 (* ---------- lists ---------- *)
 Lemma znth_In {A} (l : list A) k x : znth l k = Ok x -> In x l.
@@ -572,10 +572,8 @@ Section CtxProofs.
              exists k nd, znth mg k = Ok nd /\ c < k /\ In (ASend p0 q) (n_annots nd))
     end.
 
-  Theorem compile_context_correct nodes output sts outs cg coo mg moo priv um :
+  Theorem compile_context_correct nodes output sts outs cg coo mg moo :
     compile_to_mpc nodes output sts (map IOParty outs) = Ok ((cg, coo), (mg, moo)) ->
-    propagate_private_annotations nodes (map status_flag sts) = Ok (priv, um) ->
-    output_annotated_private cg coo = mem output priv ->
     thm_frag nodes = true ->
     Forall (fun p => 0 <= p) outs ->
     forall ins_s ins_m env_s v,
@@ -585,7 +583,7 @@ Section CtxProofs.
       ceval R r0 radd rmul rsub atom matom catom one lin bil nlin cg coo mg ins_m = Some env_m /\
       ctx_statement cg coo mg moo outs env_m v.
   Proof.
-    intros H Hppa Hann Hf Hpos ins_s ins_m env_s v Hs Hv Hin.
+    intros H Hf Hpos ins_s ins_m env_s v Hs Hv Hin.
     unfold compile_to_mpc in H.
     destruct (existsb _ sts); [discriminate|].
     destruct (existsb _ (map IOParty outs)) eqn:Hchk; [discriminate|]. apply outputs_checked in Hchk.
@@ -599,6 +597,12 @@ Section CtxProofs.
     apply bind_ok in H as (m5 & H5 & H).
     apply bind_ok in H as (out_node & Hon & H).
     apply bind_ok in H as ([m6 result] & H6 & H). inversion H; subst cg' coo' m6 result; clear H.
+    (* the privacy analysis, and the Private annotation of the output node *)
+    assert (exists priv um, propagate_private_annotations nodes (map status_flag sts) = Ok (priv, um)) as (priv & um & Hppa).
+    { pose proof HC as HC'. unfold compile_graph in HC'.
+      destruct (compile_graph_map nodes output (map status_flag sts)) as [[[o1 oo1] omap]| | |] eqn:Hm; try discriminate.
+      destruct (compile_graph_structure _ _ _ _ _ _ Hm) as (p & u & Hp & _). eauto. }
+    pose proof (output_annotation_is_privacy _ _ _ _ _ _ _ HC Hppa) as Hann.
     (* the source consumes exactly its inputs *)
     unfold deval in Hs. destruct (dfrom nodes (Some ([], ins_s))) as [[es rest_s]|] eqn:Hds; [|discriminate].
     inversion Hs; subst es; clear Hs.
